@@ -640,10 +640,10 @@ class Emitter:
         for n, chunk in enumerate(self.body):
             funcs.append("func part%d() {\n%s\n}" % (n, "\n".join(chunk)))
             calls.append("\tpart%d()" % n)
-        return ("// Code generated by checks/shapes.py. DO NOT EDIT.\npackage main\n\nimport (\n\t\"fmt\"\n\t\"unsafe\"\n\n"
+        return ("// Code generated by checks/shapes.py. DO NOT EDIT.\npackage main\n\nimport (\n\t\"fmt\"\n\t\"reflect\"\n\t\"unsafe\"\n\n"
                 "\t\"github.com/fogfish/golem/hseq\"\n\t\"github.com/fogfish/golem/optics\"\n\n"
                 + "".join("\t%s \"harness/%s/v1\"\n" % (a, d) for d, a in FOREIGN_ALIAS.items()) + ")\n\n"
-                "var _ = fmt.Sprint\nvar _ unsafe.Pointer\nvar _ = hseq.New[Other]\nvar _ = optics.ForProduct1[Other, int]\n"
+                "var _ = fmt.Sprint\nvar _ unsafe.Pointer\nvar _ reflect.Type\nvar _ = hseq.New[Other]\nvar _ = optics.ForProduct1[Other, int]\n"
                 + "".join("var _ %s.ID\n" % a for a in FOREIGN_ALIAS.values()) + "\n"
                 + "\n".join(pool) + "\n\n" + "\n".join(self.decl_lines) + "\n\n" + "\n\n".join(funcs)
                 + "\n\nfunc runAll() {\n" + "\n".join(calls) + "\n}\n")
@@ -830,23 +830,31 @@ def wrong_types_for(sh, e, rng):
 
 
 def emit_negative(em, sh, rng, chunk):
-    """C02: derivation requests under recover; windows come from hseq entries, memory is never touched."""
+    """C02: derivation requests under recover; windows come from hseq entries, memory is never touched (except by the
+    write probes of emit_negative_names, which run only on a derivation that was accepted although it had to panic)."""
     sid, T = sh.sid, sh.gotype
     L = sh.listing
 
-    def add(fam, Tt, Tsx, Tgo, types, names, why):
+    def add(fam, Tt, Tsx, Tgo, types, names, why, probe=False, **extra):
+        """One derivation under recover.  The windows printed for an ACCEPTED derivation come from lookups that cannot
+        panic (nameWin/typeWin print `?` for an absent name/type or a position without a name: hseq's own lookups would
+        panic there and hide the acceptance).  probe=True (requests that must panic, foci that are plain fields): an accepted
+        derivation additionally Puts through every returned optic on a guard-wrapped value and prints the written
+        windows as a `chk` line (direct oracle only)."""
         n = len(types)
         req = lens_request("lensd", sh, fam, Tsx, types, names)
-        em.req(req, dict(kind="lensd", sid=sid, fam=fam, T=Tt, types=types, names=names, why=why))
+        em.req(req, dict(kind="lensd", sid=sid, fam=fam, T=Tt, types=types, names=names, why=why, **extra))
         look = []
         for i, t in enumerate(types):
             if names:
-                look.append("entryWin[%s, %s](hseq.ForName(seq, %s))" % (Tgo, gosrc(t), gostrlit(names[i]) if i < len(names) else '"?"'))
+                look.append("seq.name(%s, unsafe.Sizeof(*new(%s)))" % (gostrlit(names[i]), gosrc(t)) if i < len(names) else '"?"')
             else:
-                look.append("entryWin[%s, %s](hseq.ForType[%s](seq))" % (Tgo, gosrc(t), gosrc(t)))
+                look.append("seq.typ(reflect.TypeOf((*%s)(nil)).Elem())" % gosrc(t))
         vs = ", ".join("l" + ARITY_VARS[i] for i in range(n))
         us = "; ".join("_ = l" + ARITY_VARS[i] for i in range(n))
-        chunk.append("\temit(%s, try(func() string {\n\t\t%s := %s; %s\n\t\tseq := hseq.New[%s]()\n\t\treturn \"ok \" + %s\n\t}))" % (
+        if probe:
+            us += "\n\t\taccepted(%s, %s, new(W[%s]), %s)" % (gostrlit(req), '"Put"' if fam == "P" else '"Putt"', Tgo, vs)
+        chunk.append("\temit(%s, try(func() string {\n\t\t%s := %s; %s\n\t\tseq := entries(hseq.New[%s]())\n\t\treturn \"ok \" + %s\n\t}))" % (
             gostrlit(req), vs, derive_call(fam, n, Tgo, types, names), us, Tgo, ' + " " + '.join(look)))
 
     fams = ["P", "S"]
@@ -945,6 +953,53 @@ def emit_negative(em, sh, rng, chunk):
                 em.req(req, dict(kind="refl", sid=sid, dyn=dsx, op=op, ok=ok))
                 chunk.append("\treflDyn(%s, mk, %s, wp, wn, %s)" % (gostrlit(req), dgo, gostrlit(op)))
         chunk.append("\t_ = ps; _ = other }")
+    emit_negative_names(add, sh, rng)
+
+
+def emit_negative_names(add, sh, rng):
+    """C02, two further classes of requests that must panic (both with explicit arguments, cap == len):
+      unknown-name-first-type   N >= 2 names, ONE of them unknown (a misspelt key of the shape), once at every position;
+                                the focus type requested at that position is the type of the container's FIRST field
+                                (a lookup that falls back to entry 0 passes the type guard), the other positions are valid;
+      short-names-by-type-ok    1..N-1 names for N >= 2 foci whose types all occur in the shape (a fallback to derivation
+                                by type succeeds); the named fields are, where the shape has such, NOT the first fields
+                                of their types, so that optics derived by type focus other fields than the named ones.
+    The generator draws from a copy of the stream's state: the requests emitted before stay what they were."""
+    import random
+    sub = random.Random()
+    sub.setstate(rng.getstate())
+    r = random.Random(sub.getrandbits(64) ^ 0x5EED)
+    L = sh.listing
+    keys = {e["key"] for e in L}
+    firsts = [e for e in L if sh.first_by_key(e["key"]) is e]          # entries a name denotes
+    plain = [e for e in firsts if e["value"]]                          # ... that are fields of the struct itself
+    fam = lambda: r.choice(["P", "S"])
+
+    def misspelt():
+        k = r.choice(sorted(keys))
+        for c in r.sample([k + "_", k.swapcase(), k[:-1], k + k[-1], k.lower(), k.upper(), "Nope"], 7):
+            if c and c not in keys and c.isidentifier():
+                return c
+        return "Nope_"
+
+    # unknown name at every position
+    n = r.choice([2, 2, 3, 3, 4, 5, 6, 9])
+    es = [r.choice(plain) for _ in range(n)]      # plain is never empty: the first entry is a field of the struct itself
+    f = fam()
+    for j in range(n):
+        types = [e["type"] for e in es]
+        names = [e["key"] for e in es]
+        types[j], names[j] = L[0]["type"], misspelt()
+        add(f if j % 2 == 0 else fam(), "S", "$S", sh.gotype, types, names, "unknown-name-first-type", probe=True, pos=j)
+    # too few names although every requested type is there: one name, all but one name, a random number of names
+    later = [e for e in plain if sh.first_by_type(e["type"]) is not e]   # named, but not the first field of its type
+    n1, n2, n3 = r.randint(2, 9), r.randint(2, 9), r.randint(3, 9)
+    for (n, k) in [(n1, 1), (n2, n2 - 1), (n3, r.randint(1, n3 - 1))]:
+        es = [r.choice(later) if later and r.random() < 0.7 else r.choice(plain) for _ in range(n)]
+        # the probe writes through accepted optics: only where a derivation by type stays on plain fields of the struct
+        safe = all(sh.first_by_type(e["type"])["value"] for e in es)
+        add(fam(), "S", "$S", sh.gotype, [e["type"] for e in es], [e["key"] for e in es][:k], "short-names-by-type-ok", probe=safe,
+            named_not_first_of_type=sum(1 for e in es[:k] if sh.first_by_type(e["type"]) is not e))
 
 
 def build(shapes, rng, want):
@@ -980,6 +1035,8 @@ def parse_output(lines):
         r, res = ln.split(" => ", 1)
         if r.startswith("chk "):
             chks.append((r[4:], res))
+        elif r.startswith("dpv "):
+            chks.append((r, res))     # valid-value phase summary of a lens request (go/harness/layout/deep.go): b.chk["dpv " + req]
         elif r.startswith("cap "):
             caps.append((r, res))
         else:
